@@ -192,3 +192,81 @@ func propSetTables(c *Ctx, pr *PropertyRun, prop string, pkgs []string) {
 	}
 	r.RequireRole("decision-table")
 }
+
+// freshPropTableRule: the property table handed to NewPropFindResponse for a
+// resource is built for that resource. A table allocated once in front of a
+// loop over the members of a listing and "refilled" for each of them keeps
+// the entries of an earlier member that the current one does not set (a
+// collection listed after a file reports that file's length and tag).
+func freshPropTableRule(c *Ctx, pr *PropertyRun, prop string) {
+	p := c.P
+	r := NewRule(prop, prop+".fresh-property-table", "the property table given to NewPropFindResponse is allocated for that response: never a map made once outside the loop over the listed resources (E4)")
+	pr.Rules = append(pr.Rules, r)
+	npr := p.MustFunc(r, pkgInternal, "NewPropFindResponse")
+	if npr == nil {
+		return
+	}
+	callers := map[*ssa.Function][]ssa.CallInstruction{}
+	for _, fn := range p.ModFns {
+		if !inLib(fn) {
+			continue
+		}
+		eachCall(fn, func(site ssa.CallInstruction) {
+			if callee := site.Common().StaticCallee(); callee != nil {
+				callers[callee] = append(callers[callee], site)
+			}
+		})
+	}
+	// check(v, at): v is the table (or flows into it) used by the instruction
+	// `at` of at.Parent(); follow it to where it is made
+	var check func(v ssa.Value, at ssa.Instruction, depth int, chain string)
+	check = func(v ssa.Value, at ssa.Instruction, depth int, chain string) {
+		if depth > 4 {
+			return
+		}
+		switch x := v.(type) {
+		case *ssa.MakeMap:
+			r.Role("property-table")
+			ub, mb := at.Block(), x.Block()
+			shared := blockReaches(ub, ub) && !(mb == ub || inSameCycle(mb, ub))
+			r.Ob(!shared)
+			if shared {
+				r.Violation("shared-property-table|"+fnKey(x.Parent()), p.instrPos(x), fmt.Sprintf("%s makes one property table outside the loop in which it is handed to %s: the entries set for one listed resource are still there for the next one, which then reports properties (length, type, tag) it does not have", fnKey(x.Parent()), chain), nil)
+			}
+		case *ssa.Phi:
+			for _, e := range x.Edges {
+				check(e, at, depth+1, chain)
+			}
+		case *ssa.ChangeType:
+			check(x.X, at, depth+1, chain)
+		case *ssa.Parameter:
+			fn := x.Parent()
+			idx := -1
+			for i, prm := range fn.Params {
+				if prm == x {
+					idx = i
+				}
+			}
+			for _, site := range callers[fn] {
+				if idx >= 0 && idx < len(site.Common().Args) {
+					check(site.Common().Args[idx], site, depth+1, fnKey(fn)+" -> "+chain)
+				}
+			}
+		case *ssa.UnOp:
+			// a captured or spilled local: its stores
+			if al, ok := x.X.(*ssa.Alloc); ok {
+				for _, ref := range refsOf(al) {
+					if st, ok := ref.(*ssa.Store); ok && st.Addr == ssa.Value(al) {
+						check(st.Val, at, depth+1, chain)
+					}
+				}
+			}
+		}
+	}
+	for _, site := range callers[npr] {
+		if len(site.Common().Args) >= 3 {
+			check(site.Common().Args[2], site, 0, "NewPropFindResponse")
+		}
+	}
+	r.RequireRole("property-table")
+}
